@@ -26,8 +26,21 @@ package fsm
 // and duplicated acks, fence re-issue, source/target state machine restarts,
 // misrouted ordinary writes.
 //
-// First delivery of deltas is always in source-index order (the outbox is
-// listed ascending); out-of-order first delivery is outside the contract.
+// Outbox replay delivers in source-index order (the outbox is listed
+// ascending). The live forwarder is best effort PER ROW (the state machine
+// calls it after every commit and ignores its error), so a forward may be
+// delivered at once, lost, or delayed independently of its neighbours: a later
+// row can reach the target - and be acked - while an earlier one is still
+// undelivered and has to come from the outbox replay. Such overtaking is
+// generated only between rows that touch different keys (commuting writes), so
+// the end state does not depend on the delivery order; acks are per row.
+//
+// Target-side apply batches are what the target's Raft group would produce:
+// apply_delta commands share a batch with ordinary commands of the target's own
+// hash slot 7 (writes, channel-migration task creates/claims whose guard fails
+// only when the batch commits, which makes the state machine re-apply every
+// command of the batch on its own), and a batch can be cut short by a cancelled
+// context and re-applied (same instance or a re-created state machine).
 
 import (
 	"bytes"
@@ -266,8 +279,12 @@ type verifC39World struct {
 
 	outbox    []verifC39Row // rows the source must have produced, ascending
 	applied   []bool        // per outbox position: applied at the target (first delivery happened)
-	cursorIdx uint64        // orchestrator cursor: highest source index it has sent
-	ackedPos  int           // rows [0, ackedPos) are acked
+	acked     []bool        // per outbox position: acked at the source (acks are per row)
+	inflight  []int         // outbox positions whose live forward is delayed in the network
+	cursorIdx uint64        // replay cursor: every row with index <= cursor has been applied
+	own       *verifC39Model                         // the target's own hash slot 7
+	tasks     map[string]metadb.ChannelMigrationTask // channel-migration tasks created in hash slot 7, by channel
+	now       int64
 	fenceIdx  uint64
 	pendFwd   *multiraft.Command
 	cleaned   bool
@@ -276,6 +293,8 @@ type verifC39World struct {
 	nBurst                                                                                                          int
 	nPump, nRestartT, nRestartS, nOrchRestart, nMisPre, nMisPost, nReFence, nAck, nDupAck, nCtl, nDupAfterRestart int
 	sinceRestartT                                                                                                   bool
+	nOvertake, nDelayed, nLateFwd, nLateFwdDup, nAckOverUndelivered, nAckGap                                      int
+	nMixed, nSplitFirst, nSplitDup, nCondOK, nFaultErr, nFaultFirst, nFaultSame, nFaultRestart, nFaultPartial      int
 	log                                                                                                             []string
 }
 
@@ -350,9 +369,14 @@ func (w *verifC39World) expectOutbox() {
 	if err != nil {
 		w.rt.Fatalf("ListHashSlotMigrationOutbox: %v", err)
 	}
-	want := w.outbox[w.ackedPos:]
+	var want []verifC39Row
+	for p, r := range w.outbox {
+		if !w.acked[p] {
+			want = append(want, r)
+		}
+	}
 	if len(rows) != len(want) {
-		w.fail("source outbox holds %d rows, want %d (accepted writes since the last ack)", len(rows), len(want))
+		w.fail("source outbox holds %d rows, want %d (every accepted delta-phase write whose own row was not acked)", len(rows), len(want))
 	}
 	for i, r := range rows {
 		if r.SourceIndex != want[i].idx || !bytes.Equal(r.Data, want[i].data) {
@@ -385,16 +409,162 @@ func (w *verifC39World) expectAppliedRecords() {
 	}
 }
 
+// footprint names the key a write touches; writes with different footprints
+// commute (the subscriber count lives in the channel row, so channel upserts
+// and subscriber changes of one channel share a footprint). The fence marker
+// changes nothing at the target.
+func (r verifC39Row) footprint() string {
+	if r.write == nil {
+		return ""
+	}
+	switch r.write.kind {
+	case "user":
+		return "u:" + r.write.user.UID
+	case "channel":
+		return "c:" + r.write.ch.ChannelID
+	}
+	return "c:" + r.write.chID
+}
+
+// canFirstDeliver: position p may be applied at the target for the first time
+// when every earlier row that is still undelivered touches a different key.
+func (w *verifC39World) canFirstDeliver(p int) (ok bool, overtakes bool) {
+	fp := w.outbox[p].footprint()
+	for q := 0; q < p; q++ {
+		if w.applied[q] {
+			continue
+		}
+		overtakes = true
+		if fp != "" && fp == w.outbox[q].footprint() {
+			return false, true
+		}
+	}
+	return true, overtakes
+}
+
+// ---- commands of the target's own hash slot that share a batch with deltas
+
+var verifC39TaskChans = []string{"mc0", "mc1"}
+
+type verifC39Sib struct {
+	kind string // own | claimMissing | claimStale | create
+	wr   verifC39Write
+	task metadb.ChannelMigrationTask
+	data []byte
+	want string // expected result; "" = any result that is not a refusal
+}
+
+func verifC39Task(ch string, variant int) metadb.ChannelMigrationTask {
+	return metadb.ChannelMigrationTask{
+		TaskID: "task-" + ch, Kind: metadb.ChannelMigrationKindReplicaReplace,
+		Status: metadb.ChannelMigrationStatusPending, Phase: metadb.ChannelMigrationPhaseValidate,
+		ChannelID: ch, ChannelType: 1, SourceNode: 2, TargetNode: 3, DesiredLeader: 1,
+		BaseChannelEpoch: 10, BaseLeaderEpoch: 20,
+		CreatedAtMS: 1750000000000 + int64(variant), UpdatedAtMS: 1750000000000 + int64(variant),
+	}
+}
+
+func verifC39Claim(t metadb.ChannelMigrationTask, staleBy int64, now int64) metadb.ChannelMigrationTaskClaim {
+	return metadb.ChannelMigrationTaskClaim{
+		Guard: metadb.ChannelMigrationTaskGuard{ChannelID: t.ChannelID, ChannelType: t.ChannelType, TaskID: t.TaskID,
+			ExpectedStatus: t.Status, ExpectedPhase: t.Phase, ExpectedOwnerNodeID: t.OwnerNodeID,
+			ExpectedOwnerLeaseUntilMS: t.OwnerLeaseUntilMS, ExpectedUpdatedAtMS: t.UpdatedAtMS + staleBy},
+		Status: metadb.ChannelMigrationStatusRunning, Phase: t.Phase, OwnerNodeID: 7,
+		OwnerLeaseUntilMS: now + 5000, NowMS: now, UpdatedAtMS: now,
+	}
+}
+
+// genSiblings draws the commands of hash slot 7 that the target's Raft group
+// happens to commit together with the delta commands.
+func (w *verifC39World) genSiblings() []*verifC39Sib {
+	rt := w.rt
+	mix := rapid.IntRange(0, 9).Draw(rt, "batchMix")
+	if mix < 4 {
+		return nil
+	}
+	var sibs []*verifC39Sib
+	nOwn := rapid.IntRange(0, 2).Draw(rt, "nOwnWrites")
+	if mix < 6 && nOwn == 0 {
+		nOwn = 1
+	}
+	for i := 0; i < nOwn; i++ {
+		w.serial++
+		wr := verifC39GenWrite(rt, w.serial)
+		sibs = append(sibs, &verifC39Sib{kind: "own", wr: wr, data: wr.encode()})
+	}
+	if mix >= 6 {
+		nCond := 1
+		if rapid.IntRange(0, 9).Draw(rt, "secondCond") < 2 {
+			nCond = 2
+		}
+		chans := rapid.Permutation(verifC39TaskChans).Draw(rt, "condChans")
+		for i := 0; i < nCond; i++ {
+			ch := chans[i]
+			w.now += 10
+			switch rapid.IntRange(0, 4).Draw(rt, "condKind") {
+			case 0, 1: // claim of a task nobody created: the guard fails when the batch commits
+				t := verifC39Task(ch, 0)
+				t.TaskID = fmt.Sprintf("missing-%d", w.now)
+				sibs = append(sibs, &verifC39Sib{kind: "claimMissing", task: t, data: EncodeClaimChannelMigrationTaskCommand(verifC39Claim(t, 0, w.now))})
+			case 2: // claim with a stale guard (only possible once the task exists)
+				if t, ok := w.tasks[ch]; ok {
+					sibs = append(sibs, &verifC39Sib{kind: "claimStale", task: t, data: EncodeClaimChannelMigrationTaskCommand(verifC39Claim(t, 1, w.now))})
+					break
+				}
+				fallthrough
+			default: // create: new, identical re-create, or conflicting re-create (fails at commit)
+				t := verifC39Task(ch, rapid.IntRange(0, 2).Draw(rt, "taskVariant"))
+				sibs = append(sibs, &verifC39Sib{kind: "create", task: t, data: EncodeCreateChannelMigrationTaskCommand(t)})
+			}
+		}
+	}
+	return sibs
+}
+
+// verifC39Ctx is a context that reports cancellation after a generated number
+// of Err() calls (the runtime's apply context is cancelled on shutdown).
+type verifC39Ctx struct {
+	context.Context
+	left    *int
+	tripped *bool
+}
+
+func (c verifC39Ctx) Err() error {
+	if *c.left <= 0 {
+		*c.tripped = true
+		return context.Canceled
+	}
+	*c.left--
+	return nil
+}
+
+func (w *verifC39World) checkOwn(what string) {
+	w.checkEqual(what+" (target's own hash slot)", w.dbT, verifC39TgtOwn, w.own)
+	for _, ch := range verifC39TaskChans {
+		want, wantOK := w.tasks[ch]
+		got, err := w.dbT.ForHashSlot(verifC39TgtOwn).GetChannelMigrationTask(context.Background(), ch, 1, "task-"+ch)
+		if errors.Is(err, metadb.ErrNotFound) {
+			if wantOK {
+				w.fail("%s: channel-migration task of %s is missing in the target's own hash slot", what, ch)
+			}
+			continue
+		}
+		if err != nil {
+			w.rt.Fatalf("GetChannelMigrationTask: %v", err)
+		}
+		if !wantOK || got != want {
+			w.fail("%s: channel-migration task of %s is %+v, want %+v (present=%v)", what, ch, got, want, wantOK)
+		}
+	}
+}
+
 // deliver sends the outbox rows at the given positions (in this order) to
-// the target as apply_delta commands in ONE batch and judges the outcome.
+// the target as apply_delta commands in ONE batch - together with generated
+// commands of the target's own hash slot - and judges the outcome.
 func (w *verifC39World) deliver(what string, positions []int) {
-	cmds := make([]multiraft.Command, 0, len(positions))
+	rt := w.rt
 	seenInBatch := map[int]bool{}
 	for _, p := range positions {
-		row := w.outbox[p]
-		w.tIdx++
-		cmds = append(cmds, multiraft.Command{SlotID: verifC39Tgt, HashSlot: verifC39H, Index: w.tIdx, Term: 1,
-			Data: EncodeApplyDeltaCommand(verifC39Src, row.idx, verifC39H, row.data)})
 		if w.applied[p] || seenInBatch[p] {
 			w.nDup++
 			if seenInBatch[p] {
@@ -409,32 +579,163 @@ func (w *verifC39World) deliver(what string, positions []int) {
 		}
 		seenInBatch[p] = true
 	}
-	// reference: first deliveries apply once, in batch order; everything else is a no-op
+	type item struct {
+		pos int
+		sib *verifC39Sib
+	}
+	items := make([]item, 0, len(positions)+3)
 	for _, p := range positions {
-		if !w.applied[p] {
-			for q := 0; q < p; q++ {
-				if !w.applied[q] {
-					w.rt.Fatalf("VERIF-MACHINERY harness delivered outbox position %d before %d", p, q)
+		items = append(items, item{pos: p})
+	}
+	sibs := w.genSiblings()
+	for _, sb := range sibs {
+		at := rapid.IntRange(0, len(items)).Draw(rt, "sibAt")
+		items = append(items[:at], append([]item{{pos: -1, sib: sb}}, items[at:]...)...)
+	}
+
+	// reference, in batch order: first deliveries apply once; duplicates are
+	// no-ops; own-hash-slot commands behave as if applied one after the other
+	cmds := make([]multiraft.Command, 0, len(items))
+	prefixStates := []string{w.tmodel.describe()}
+	firsts, commitFails, descr := 0, 0, make([]string, 0, len(items))
+	createdInBatch := map[string]bool{}
+	for _, it := range items {
+		w.tIdx++
+		if it.sib == nil {
+			row := w.outbox[it.pos]
+			cmds = append(cmds, multiraft.Command{SlotID: verifC39Tgt, HashSlot: verifC39H, Index: w.tIdx, Term: 1,
+				Data: EncodeApplyDeltaCommand(verifC39Src, row.idx, verifC39H, row.data)})
+			descr = append(descr, fmt.Sprint(it.pos))
+			if !w.applied[it.pos] {
+				if ok, over := w.canFirstDeliver(it.pos); !ok {
+					rt.Fatalf("VERIF-MACHINERY harness delivered outbox position %d before an undelivered earlier write to the same key", it.pos)
+				} else if over {
+					w.nOvertake++
 				}
+				w.applied[it.pos] = true
+				firsts++
+				if wr := row.write; wr != nil {
+					w.tmodel.apply(*wr)
+				}
+				prefixStates = append(prefixStates, w.tmodel.describe())
 			}
-			w.applied[p] = true
-			if wr := w.outbox[p].write; wr != nil {
-				w.tmodel.apply(*wr)
+			continue
+		}
+		sb := it.sib
+		cmds = append(cmds, multiraft.Command{SlotID: verifC39Tgt, HashSlot: verifC39TgtOwn, Index: w.tIdx, Term: 1, Data: sb.data})
+		switch sb.kind {
+		case "own":
+			w.own.apply(sb.wr)
+			descr = append(descr, "own:"+sb.wr.String())
+		case "claimMissing", "claimStale":
+			sb.want = ApplyResultStaleMeta
+			commitFails++
+			descr = append(descr, sb.kind)
+		case "create":
+			ex, exists := w.tasks[sb.task.ChannelID]
+			switch {
+			case !exists:
+				w.tasks[sb.task.ChannelID] = sb.task
+				createdInBatch[sb.task.ChannelID] = true
+				sb.want = ApplyResultOK
+				w.nCondOK++
+				descr = append(descr, "create-new")
+			case ex == sb.task:
+				sb.want = ApplyResultOK
+				w.nCondOK++
+				descr = append(descr, "create-same")
+			default:
+				sb.want = ApplyResultStaleMeta
+				if !createdInBatch[sb.task.ChannelID] {
+					commitFails++ // the conflict is with a committed row: it shows only when the batch commits
+				}
+				descr = append(descr, "create-conflict")
 			}
 		}
 	}
-	out, err := w.tgtApplyBatch(cmds)
-	w.log = append(w.log, fmt.Sprintf("%s%v", what, positions))
-	if err != nil {
-		w.fail("target refused apply_delta batch %v: %v", positions, err)
+	if len(sibs) > 0 {
+		w.nMixed++
 	}
-	for i, r := range out {
-		if string(r) != ApplyResultOK {
-			w.fail("apply_delta for outbox position %d answered %q", positions[i], r)
+	if commitFails > 0 && len(cmds) > 1 {
+		if firsts > 0 {
+			w.nSplitFirst++
+		} else {
+			w.nSplitDup++
+		}
+	}
+
+	bg := context.Background()
+	var out [][]byte
+	var err error
+	entry := fmt.Sprintf("%s%v", what, descr)
+	if rapid.IntRange(0, 9).Draw(rt, "applyFault") < 2 {
+		// the apply context is cancelled somewhere inside the batch
+		left, tripped := rapid.IntRange(0, 3*len(cmds)+2).Draw(rt, "cancelAfter"), false
+		out, err = w.tgt.ApplyBatch(verifC39Ctx{Context: bg, left: &left, tripped: &tripped}, cmds)
+		if err != nil {
+			if !tripped {
+				w.log = append(w.log, entry)
+				w.fail("target refused batch %v: %v", descr, err)
+			}
+			w.nFaultErr++
+			if firsts > 0 {
+				w.nFaultFirst++
+			}
+			// nothing or a prefix of the batch (commit-time split) may be durable
+			got := verifC39ReadHS(rt, w.dbT, verifC39H).describe()
+			at := -1
+			for i, st := range prefixStates {
+				if st == got {
+					at = i
+				}
+			}
+			if at < 0 {
+				w.log = append(w.log, entry+"!cancelled")
+				w.fail("after a cancelled apply batch the target's rows are neither the old state nor a prefix of the batch\n  have: %s", got)
+			}
+			if at > 0 {
+				w.nFaultPartial++
+			}
+			if rapid.Bool().Draw(rt, "retryOnSameInstance") {
+				w.nFaultSame++
+				entry += "!cancelled-retry"
+			} else {
+				w.restartTarget()
+				w.nFaultRestart++
+				entry += "!cancelled-reopen-retry"
+			}
+			out, err = w.tgt.ApplyBatch(bg, cmds)
+		}
+	} else {
+		out, err = w.tgt.ApplyBatch(bg, cmds)
+	}
+	w.log = append(w.log, entry)
+	if err != nil {
+		w.fail("target refused batch %v: %v", descr, err)
+	}
+	if len(out) != len(cmds) {
+		w.fail("batch of %d commands answered %d results", len(cmds), len(out))
+	}
+	for i, it := range items {
+		r := string(out[i])
+		switch {
+		case it.sib == nil:
+			if r != ApplyResultOK {
+				w.fail("apply_delta for outbox position %d answered %q", it.pos, r)
+			}
+		case it.sib.want == "":
+			if r == ApplyResultStaleMeta || r == ApplyResultHashSlotFenced {
+				w.fail("ordinary write %s to the target's own hash slot answered %q", it.sib.wr, r)
+			}
+		case r != it.sib.want:
+			w.fail("%s command in the target's own hash slot answered %q, want %q", it.sib.kind, r, it.sib.want)
 		}
 	}
 	w.checkEqual("after "+what, w.dbT, verifC39H, w.tmodel)
 	w.expectAppliedRecords()
+	if len(sibs) > 0 {
+		w.checkOwn("after " + what)
+	}
 }
 
 func (w *verifC39World) firstUnapplied() int {
